@@ -278,6 +278,34 @@ func genC16(r *Run) {
 		// (4) builders keep the transaction id / echo identifiers
 		oracleBuilders(r, inner, iw)
 	}
+	// builders on the full grid: every message type x presence of client id / server id / IA_NA / rapid commit,
+	// built in memory and after a trip over the wire
+	for mt := 0; mt <= 14; mt++ {
+		for mask := 0; mask < 16; mask++ {
+			m := &dhcpv6.Message{MessageType: dhcpv6.MessageType(mt), TransactionID: dhcpv6.TransactionID{byte(mt), byte(mask), 7}}
+			if mask&1 != 0 {
+				m.AddOption(dhcpv6.OptClientID(&dhcpv6.DUIDLL{HWType: 1, LinkLayerAddr: net.HardwareAddr{2, 0, 0, 0, 0, byte(mt)}}))
+			}
+			if mask&2 != 0 {
+				m.AddOption(dhcpv6.OptServerID(&dhcpv6.DUIDLL{HWType: 1, LinkLayerAddr: net.HardwareAddr{2, 9, 9, 9, 9, byte(mask)}}))
+			}
+			if mask&4 != 0 {
+				m.AddOption(&dhcpv6.OptIANA{IaId: [4]byte{1, 2, 3, byte(mt)}})
+			}
+			if mask&8 != 0 {
+				m.AddOption(&dhcpv6.OptionGeneric{OptionCode: dhcpv6.OptionRapidCommit})
+			}
+			w := m.ToBytes()
+			r.Add(eV6Advertise, w)
+			r.Add(eV6Request, w)
+			r.Add(eV6Reply, w)
+			oracleBuilders(r, m, w)
+			if d, err := dhcpv6.MessageFromBytes(w); err == nil {
+				oracleBuilders(r, d, w)
+			}
+			evals += 2
+		}
+	}
 	r.Extra["oracle_evaluations"] = evals
 }
 
